@@ -25,6 +25,20 @@ def run(tier):
         rep.count("positive_controls_flagged")
     for name in MUST_NOT_FLAG:
         rep.require(name not in flagged, "negative control `%s` was flagged (%s) — the rule is too strict" % (name, flagged.get(name)))
+    # G-CFG: the generator does not consult its own build configuration / source position (token trees of its source)
+    from ..grules import buildcfg_findings
+    from ..common import REPO, VERIF
+    ctl_cfg, _nf, _nt = buildcfg_findings(os.path.join(VERIF, "witness", "gctl", "src"), os.path.join(VERIF, "witness", "gctl"))
+    ctl_keys = " | ".join(k for _r, k, _m, _w in ctl_cfg)
+    for needle in ("cfg!", "#[cfg(target_os", "option_env!", "line!"):
+        rep.require(needle in ctl_keys, "positive control for G-CFG (`%s`) was not flagged" % needle)
+        rep.count("positive_controls_flagged")
+    found, nfiles, ntok = buildcfg_findings(os.path.join(REPO, "entrait_macros", "src"), REPO)
+    rep.require(nfiles >= 15, "only %d source files of entrait_macros were scanned" % nfiles)
+    rep.count("source_files_scanned", nfiles)
+    rep.count("source_tokens_scanned", ntok)
+    for rule, key, msg, wh in found:
+        rep.add(rule, key, msg, where=wh)
     facts, wall = load_gen()
     bodies = [b for b in facts["bodies"] if not b.get("stolen")]
     rep.require(len(bodies) >= 150, "only %d bodies of entrait_macros were analysed" % len(bodies))
